@@ -294,7 +294,16 @@ def _run_case(case, ob, tier):
             sp = spec.run(block, K, v, reg_init=regs, mem_init={
                 mem.name: SymMem.from_dict(mems.get(mem.name, {}), 0, mem.addrwidth, mem.bitwidth) for mem in simdrv.mems_of(block).values()})
             assume = [z3.Not(d) for d in sp.double_write]
-            cm = CompiledModel(block, regvals=regs, memvals=mems)
+            try:
+                cm = CompiledModel(block, regvals=regs, memvals=mems)
+            except pyrtl.PyrtlError as e:
+                # the same register_value_map / memory_value_map (keyed as Simulation documents) that Simulation accepts below
+                with sym_env([block]):
+                    run_sim(block, 1, v, kind='sim', reg_init=regs, mem_init={
+                        mem.name: SymMem.from_dict(mems.get(mem.name, {}), 0, mem.addrwidth, mem.bitwidth)
+                        for mem in simdrv.mems_of(block).values()}, track='io', assumptions=assume)
+                ob.fact('CompiledSimulation-accepts-the-initial-state-Simulation-accepts', False, site + ':refused', detail=str(e))
+                return
             rb = run_compiled(cm, K, v, assumptions=assume)
             nval, bad = simdrv.validate_compiled_model(cm, K, v, rb, salt=len(json.dumps(case, sort_keys=True)))
             if bad:
